@@ -22,7 +22,7 @@ import (
 
 type ResourceDef struct {
 	Group, Version, Resource, Kind string
-	Namespaced, HasStatus         bool
+	Namespaced, HasStatus          bool
 }
 
 func (r ResourceDef) APIVersion() string {
@@ -56,11 +56,11 @@ type LogEntry struct {
 	// what this field manager applied to the target before (apply only): input of the Lean API model's cross-check
 	LastApplied map[string]interface{} `json:"lastApplied,omitempty"`
 	// hook calls (Verb == "hook") share the log so that the global order is recorded
-	Hook     string                 `json:"hook,omitempty"`
-	HookReq  map[string]interface{} `json:"hookReq,omitempty"`
-	HookResp interface{}            `json:"hookResp,omitempty"`
-	HookRaw  string                 `json:"hookRaw,omitempty"`
-	HookRetryAfter int              `json:"hookRetryAfter,omitempty"`
+	Hook           string                 `json:"hook,omitempty"`
+	HookReq        map[string]interface{} `json:"hookReq,omitempty"`
+	HookResp       interface{}            `json:"hookResp,omitempty"`
+	HookRaw        string                 `json:"hookRaw,omitempty"`
+	HookRetryAfter int                    `json:"hookRetryAfter,omitempty"`
 }
 
 // Fault makes the nth (1-based) request matching (Verb, Resource, Name) fail. Empty fields match all.
@@ -81,22 +81,22 @@ type EnvTrigger struct {
 }
 
 type Sim struct {
-	mu       sync.Mutex
-	defs     []ResourceDef
-	objs     map[Key]map[string]interface{}
-	applied  map[string]map[string]interface{} // manager+key -> last applied body (SSA)
-	rv       int
-	uid      int
-	clock    int
-	Log      []LogEntry
-	Faults   []*Fault
-	Env      map[int]func(s *Sim) // run just before request number i (0-based, writes and reads alike)
+	mu      sync.Mutex
+	defs    []ResourceDef
+	objs    map[Key]map[string]interface{}
+	applied map[string]map[string]interface{} // manager+key -> last applied body (SSA)
+	rv      int
+	uid     int
+	clock   int
+	Log     []LogEntry
+	Faults  []*Fault
+	Env     map[int]func(s *Sim) // run just before request number i (0-based, writes and reads alike)
 	// EnvBefore: outside writers that act just before the first request with a given identity (e.g. between the GET and
 	// the PUT of a read-modify-write of one object); empty fields match anything
 	EnvBefore []*EnvTrigger
-	Server   *httptest.Server
-	watchers map[string][]chan watchEvent
-	Quiet    bool // do not log list/watch
+	Server    *httptest.Server
+	watchers  map[string][]chan watchEvent
+	Quiet     bool // do not log list/watch
 	// FaultAt makes the request with this index (0-based, within the current log) fail.
 	FaultAt map[int][2]string // index -> (code, reason)
 	// CutAfter >= 0: every request with index >= CutAfter fails with 503 and changes nothing (a crash seen from the store)
@@ -141,7 +141,7 @@ func (s *Sim) DefByKind(group, kind string) *ResourceDef {
 	return nil
 }
 
-func (s *Sim) nextRV() string { s.rv++; return strconv.Itoa(s.rv) }
+func (s *Sim) nextRV() string  { s.rv++; return strconv.Itoa(s.rv) }
 func (s *Sim) nextUID() string { s.uid++; return fmt.Sprintf("uid-%d", s.uid) }
 func (s *Sim) now() string {
 	s.clock++
@@ -192,7 +192,9 @@ func (s *Sim) GetObj(group, resource, ns, name string) map[string]interface{} {
 	return DeepCopy(o).(map[string]interface{})
 }
 
-func (s *Sim) Remove(group, resource, ns, name string) { delete(s.objs, Key{group, resource, ns, name}) }
+func (s *Sim) Remove(group, resource, ns, name string) {
+	delete(s.objs, Key{group, resource, ns, name})
+}
 
 // Mutate edits a stored object in place and bumps its resourceVersion (an outside writer).
 func (s *Sim) Mutate(group, resource, ns, name string, f func(o map[string]interface{})) bool {
